@@ -342,7 +342,7 @@ private def demoFields : List Node :=
    .mk "b" true .raises .null,
    .mk "c" false .returns (.list [.obj [.mk "z" true .returns .leaf], .null])]
 private def demoReq (sched : List Nat) : Request :=
-  { docIsText := true, syntaxError := false, valid := true, opselOk := true, varsOk := true, serial := false,
+  { docIsText := true, syntaxError := false, valid := true, opselOk := true, varsOk := true, subscriptionOp := false, serial := false,
     blockingExecutor := false, fields := demoFields, sched := sched }
 example : execBody ⟨[0]⟩ (demoReq [2, 1, 0]) ≠ execBody ⟨[0]⟩ (demoReq [0, 0, 0]) := by decide
 example : (nodesOfFields [] demoFields).length = 6 := by decide
@@ -388,14 +388,14 @@ def stageShape (r : Request) : List (Stage × Bool) :=
   (if r.docIsText && r.syntaxError then [(.parsing, true), (.parsing, false)]
    else (if r.docIsText then [(.parsing, true), (.parsing, false)] else []) ++
         [(.validation, true), (.validation, false)] ++
-        (if r.valid && r.opselOk && r.varsOk then [(.execution, true), (.execution, false)] else [])) ++
+        (if r.valid && r.opselOk && r.varsOk && !r.subscriptionOp then [(.execution, true), (.execution, false)] else [])) ++
   [(.query, false)]
 
 theorem stage_events_eq (cfg : Cfg) (r : Request) : stageEvents (pipeline false cfg r) = stageShape r := by
   have hb := body_has_no_stage_event cfg r
-  obtain ⟨docIsText, syntaxError, valid, opselOk, varsOk, serial, blocking, fields, sched⟩ := r
+  obtain ⟨docIsText, syntaxError, valid, opselOk, varsOk, subOp, serial, blocking, fields, sched⟩ := r
   simp only [stageEvents] at hb
-  cases docIsText <;> cases syntaxError <;> cases valid <;> cases opselOk <;> cases varsOk <;>
+  cases docIsText <;> cases syntaxError <;> cases valid <;> cases opselOk <;> cases varsOk <;> cases subOp <;>
     simp [pipeline, execute, stageShape, stageEvents, stageStart, stageEnd, List.filterMap_append, hb, stageOf]
 
 /-- **stages_nested** — for every request, every outcome of every stage, every executor,
@@ -409,13 +409,13 @@ theorem stages_nested (cfg : Cfg) (r : Request) :
     ∧ (stageEvents (pipeline false cfg r)).head? = some (.query, true)
     ∧ (stageEvents (pipeline false cfg r)).getLast? = some (.query, false) := by
   rw [stage_events_eq]
-  obtain ⟨docIsText, syntaxError, valid, opselOk, varsOk, serial, blocking, fields, sched⟩ := r
-  cases docIsText <;> cases syntaxError <;> cases valid <;> cases opselOk <;> cases varsOk <;>
+  obtain ⟨docIsText, syntaxError, valid, opselOk, varsOk, subOp, serial, blocking, fields, sched⟩ := r
+  cases docIsText <;> cases syntaxError <;> cases valid <;> cases opselOk <;> cases varsOk <;> cases subOp <;>
     simp [stageShape, bracket]
 
 /-- the stage hooks of a stage that reported errors are still paired: syntax error, validation
     errors, operation / variable errors (execution never starts) -/
-example : stageShape { docIsText := true, syntaxError := true, valid := true, opselOk := true, varsOk := true,
+example : stageShape { docIsText := true, syntaxError := true, valid := true, opselOk := true, varsOk := true, subscriptionOp := false,
                        serial := false, blockingExecutor := true, fields := [], sched := [] }
     = [(.query, true), (.parsing, true), (.parsing, false), (.query, false)] := by decide
 
@@ -424,7 +424,7 @@ example : stageShape { docIsText := true, syntaxError := true, valid := true, op
     `query+ parsing+ query- parsing-`, which is not well bracketed. -/
 theorem stages_not_nested_before_fix_N1 :
     ∃ (cfg : Cfg) (r : Request), bracket [] (stageEvents (pipeline true cfg r)) = false :=
-  ⟨⟨[]⟩, { docIsText := true, syntaxError := true, valid := true, opselOk := true, varsOk := true,
+  ⟨⟨[]⟩, { docIsText := true, syntaxError := true, valid := true, opselOk := true, varsOk := true, subscriptionOp := false,
            serial := false, blockingExecutor := true, fields := [], sched := [] }, by decide⟩
 
 
